@@ -549,6 +549,12 @@ class Sim:
                         if rg is None and pg is not None:
                             rg = pg + 1            # the observer has not seen the sender use that generation yet
                         can = rg is not None and (p["gen"] in (rg, rg + 1) or (pg is not None and p["gen"] == pg))
+                    if can and p["type"] == "0rtt" and p.get("zver") is not None and getattr(cr.recv, "version", None) is not None \
+                            and int(cr.recv.version) != int(p["zver"]):
+                        # after compatible version negotiation aioquic's client keeps sealing 0-RTT packets with the keys of the
+                        # original version's labels (under the new version's header); a receiver whose 0-RTT keys follow the new
+                        # version cannot open them (observation recorded in DESIGN.md section 10, outside C12)
+                        can = False
                     if can and p["type"] == "0rtt" and self.obs.follow_retry:
                         # Retry runs: a 0-RTT packet from before the Retry is protected with the early secret of the first
                         # ClientHello; the server derived its key from the second one
